@@ -355,6 +355,11 @@ func TestC15(t *testing.T) {
 			}
 			st.Class(kind + " raw")
 		}
+		if kind == "html" && rapid.IntRange(0, 5).Draw(t, "beforeDoctype") == 0 {
+			// something in front of the doctype (a "saved from" comment, white space, text): parsed or refused, but returned
+			c.Doc = append([]byte([]string{"<!-- saved from url=(0014)about:internet -->", "<!--c-->\n", " \n", "x", "<!---->", "<?php ?>"}[rapid.IntRange(0, 5).Draw(t, "prolog")]), c.Doc...)
+			st.Class("html with something in front of the doctype")
+		}
 		st.Eval(1)
 		if len(c.Doc) >= 8 {
 			st.NonTrivial(kind + string(c.Doc))
